@@ -924,7 +924,10 @@ def rule_loop_retry(ctx):
         for hp in hk_params:
             for c_ in sorted({(prog.bodies[x].root or x) if prog.bodies[x].kind == 'closure' else x for x in prog.callers().get(b.nid, ())}):
                 try:
-                    cps = ctx.symex(inline_depth=1, loop_visits=2, inline_pred=lambda n_, bb, d: False).run(c_)
+                    # (field accessors are stepped into: `self.base.housekeeper()` is the field)
+                    cps = ctx.symex(inline_depth=2, loop_visits=2, inline_pred=lambda n_, bb, d: True if (
+                        n_ != b.nid and bb.kind != 'closure' and not bb.loops() and len(bb.blocks) <= 6 and
+                        not any(e_[0] == 'write' for e_ in ctx.eff.transitive(n_)) and not ctx.eff.mut_params.get(n_)) else False).run(c_)
                 except Exception:
                     continue
                 seen_sites = set()
